@@ -30,7 +30,8 @@ def regenerate(repo, gen_dir):
     ch3 = gen_apx_patterns(repo, gen_dir)
     ch4 = gen_problem_grammar(repo, gen_dir)
     ch5 = gen_sat_tokens(repo, gen_dir)
-    return ch or ch2 or ch3 or ch4 or ch5
+    ch6 = gen_writer_formats(repo, gen_dir)
+    return ch or ch2 or ch3 or ch4 or ch5 or ch6
 
 
 def parse_char(tok):
@@ -316,3 +317,49 @@ def gen_sat_tokens(repo, gen_dir):
                "/-- the DIMACS header up to the variable count -/\ndef dimacsHeaderPrefix : List Nat := %s\n\nend Crusta.Gen\n") % (
         codes(status[0][0]), codes(status[1][0]), codes(vpre[0]), codes(tail.group(1)), codes(tail.group(2)), codes(tail.group(3)), codes(hdr.group(1)))
     return write_if_changed(os.path.join(gen_dir, "SatTokens.lean"), content)
+
+
+# ----------------------------------------------------------------------------- format strings of the writers (io/*.rs)
+
+def gen_writer_formats(repo, gen_dir):
+    """the format strings of the response / framework writers, in source order (test modules excluded);
+    Props/C14 proves that the Lean writer model produces exactly these formats"""
+    def fmts(path, fn_name):
+        src = open(os.path.join(repo, path)).read().split("#[cfg(test)]")[0]
+        m = re.search(r"fn %s\b[^;]*?\{.*?\n    \}\n" % fn_name, src, re.S) if not fn_name.startswith("pub") else \
+            re.search(r"%s\b.*?\n\}\n" % re.escape(fn_name), src, re.S)
+        if not m:
+            raise RuntimeError("%s not found in %s" % (fn_name, path))
+        out = []
+        for mac, lit in re.findall(r'\b(write|writeln)!\(\s*writer\s*(?:,\s*"((?:[^"\\]|\\.)*)")?', m.group(0)):
+            out.append((lit or "") + ("\n" if mac == "writeln" else ""))
+        return out, m.group(0)
+    iccma_ext, _ = fmts("src/io/iccma23_writer.rs", "write_single_extension")
+    apx_ext, _ = fmts("src/io/aspartix_writer.rs", "write_single_extension")
+    apx_fw, _ = fmts("src/io/aspartix_writer.rs", "write_framework")
+    noext, _ = fmts("src/io/specs.rs", "pub(crate) fn write_no_extension")
+    status, body = fmts("src/io/specs.rs", "pub(crate) fn write_acceptance_status")
+    yn = re.search(r'if acceptance_status \{ "([^"]*)" \} else \{ "([^"]*)" \}', body)
+    if not yn:
+        raise RuntimeError("unexpected write_acceptance_status")
+    expect = (len(iccma_ext), len(apx_ext), len(apx_fw), len(noext), len(status))
+    if expect != (3, 4, 2, 1, 1):
+        raise RuntimeError("unexpected number of write!/writeln! calls in the writers: %r" % (expect,))
+
+    def codes(t):
+        t = t.replace("\\n", "\n")
+        return "[" + ", ".join(str(ord(c)) for c in t) + "]"
+
+    def lst(ts):
+        return "[" + ", ".join(codes(t) for t in ts) + "]"
+    content = ("/-! Regenerated from /repo/src/io/{iccma23_writer,aspartix_writer,specs}.rs by tools/gen_from_source.py on every run.\n"
+               "Format strings of the `write!` / `writeln!` calls in source order (`{}` = 123, 125 is a placeholder; `writeln!` adds 10). Do not edit. -/\n\n"
+               "namespace Crusta.Gen\n\n"
+               "def iccmaExtFormats : List (List Nat) := %s\n"
+               "def apxExtFormats : List (List Nat) := %s\n"
+               "def apxFrameworkFormats : List (List Nat) := %s\n"
+               "def noExtensionFormats : List (List Nat) := %s\n"
+               "def statusFormats : List (List Nat) := %s\n"
+               "def statusYes : List Nat := %s\ndef statusNo : List Nat := %s\n\nend Crusta.Gen\n") % (
+        lst(iccma_ext), lst(apx_ext), lst(apx_fw), lst(noext), lst(status), codes(yn.group(1)), codes(yn.group(2)))
+    return write_if_changed(os.path.join(gen_dir, "WriterFormats.lean"), content)
